@@ -80,7 +80,7 @@ PROPS = {
     "C07": dict(
         title="Compound priority is a deterministic, documented function of the DAG",
         core=["GT-CARRY", "GT-FORMULA"],
-        aux=["GT-RECONF", "GT-POP", "GT-MODEL", "VAL-CONF", "VAL-EXPAND"],
+        aux=["GT-RECONF", "GT-POP", "GT-MODEL", "VAL-CONF", "VAL-EXPAND", "GT-STALEEXEC"],
         explanation="Typestate: tables carried through every sub-graph derivation; the computation has no order-dependent "
                     "iteration with loop-carried dependence and no accumulation of a child's compound value (path counting) and "
                     "matches the accepted shape 'own priority + fold over a reachability closure of own priorities'; recomputed "
@@ -111,7 +111,7 @@ PROPS = {
     "C10": dict(
         title="twz_active runs a node iff the supplied value is truthy; otherwise None",
         core=["REF-DEREF", "SCH-DEACT", "REF-FIELDS"],
-        aux=["SCH-ACTIVE", "REF-FLAGPRED", "REF-KEY", "REF-ASDICT", "REF-ACTIVE-BUILD", "REF-GETITEM", "REF-REWIRE"],
+        aux=["SCH-ACTIVE", "REF-FLAGPRED", "REF-KEY", "REF-ASDICT", "REF-ACTIVE-BUILD", "REF-GETITEM", "REF-REWIRE", "REF-NONEKEY", "REF-SEEDACT"],
         explanation="The flag is decided by the truthiness of the reference dereferenced through the accessor (key path applied); "
                     "deactivated arm = no dispatch + graph removal + release of successors; the flag is a dependency edge; the "
                     "nested-DAG flag is attached to stubs and inner nodes under one presence predicate.",
@@ -151,7 +151,7 @@ PROPS = {
     "C14": dict(
         title="A failing node fails the call, names itself, and starts nothing downstream",
         core=["ERR-WRAP", "ERR-CHECK", "ERR-NOSWALLOW"],
-        aux=["SCH-DONE", "SCH-EXIT", "ERR-CTX", "SCH-BIDICT", "ERR-FAILSTOP"],
+        aux=["SCH-DONE", "SCH-EXIT", "ERR-CTX", "SCH-BIDICT", "ERR-FAILSTOP", "REF-NONEKEY"],
         explanation="The node call is wrapped with id + call location 'from e'; every newly done future is checked before the "
                     "wait helper returns and before the node is removed from the graph; no handler between the check and the API "
                     "boundary; context managers around the node call do not suppress.",
@@ -161,7 +161,7 @@ PROPS = {
     "C15": dict(
         title="Calls do not leak state: a DAG (and an executor) behaves as if freshly built",
         core=["OWN-RUN", "OWN-ARGS", "OWN-CONSUME"],
-        aux=["OWN-WRITEBACK", "VAL-EXECUTED", "OWN-COMPOSE", "OWN-SCHEDCOPY", "VAL-SETUPARG", "VAL-ARGCOUNT", "VAL-GENREUSE", "OWN-SETUP"],
+        aux=["OWN-WRITEBACK", "VAL-EXECUTED", "OWN-COMPOSE", "OWN-SCHEDCOPY", "VAL-SETUPARG", "VAL-ARGCOUNT", "VAL-GENREUSE", "OWN-SETUP", "OWN-WBCOMPLETE"],
         explanation="Ownership: run paths mutate only objects they created, executor fields, or the licensed setup write-back; "
                     "arguments are written into a copy; a consumed graph is fresh per call.",
         not_decided="equality of outcomes over histories (implied by non-interference, which is what is checked)",
@@ -190,7 +190,7 @@ PROPS = {
     "C18": dict(
         title="An execution restarted from a cache file reuses, not recomputes, cached results",
         core=["CACHE-FLOW"],
-        aux=["CACHE-SHAPE", "CACHE-EXCL", "SCH-PRUNE", "CACHE-PRIORITY", "GT-ALIAS", "GT-POP", "GT-ALIASNORM"],
+        aux=["CACHE-SHAPE", "CACHE-EXCL", "SCH-PRUNE", "CACHE-PRIORITY", "GT-ALIAS", "GT-POP", "GT-ALIASNORM", "REF-STABLEID"],
         explanation="Flow: the unpickled mapping reaches, entry by entry and overriding existing entries, the results handed to "
                     "the scheduler; writer and reader agree on the shape; the cache_deps_of ids are all excluded on write; cached "
                     "ids are pruned before scheduling.",
@@ -210,7 +210,7 @@ PROPS = {
     "C20": dict(
         title="Calling a DAG inside a DAG is equivalent to inlining it",
         core=["REF-PREFIX", "REF-ASDICT", "REF-KEY", "REF-SEED"],
-        aux=["LCK-PAIR", "REF-SHAPE", "REF-UNIQ", "REF-FLAGPRED", "REF-GETITEM", "REF-TRACE", "SIB-CTOR", "REF-STABLEID"],
+        aux=["LCK-PAIR", "REF-SHAPE", "REF-UNIQ", "REF-FLAGPRED", "REF-GETITEM", "REF-TRACE", "SIB-CTOR", "REF-STABLEID", "REF-SAMENODE"],
         explanation="Every inner id reaching an outer table passes the prefixer exactly once; stub ids are not seeded with "
                     "defaults; asdict restoration of every reference field; return-shape agreement; prefix push/pop paired; "
                     "registration ids call-site unique (reports the known collision).",
